@@ -183,7 +183,7 @@ def validate(ctx, jobs_events, mode, label, chunk_events=12000, max_rejections=2
             if res["error"]:
                 raise ToolingError("TLC error validating %s chunk %d:\n%s" % (label, ci, res["error"]))
             if not res["violated"]:
-                if "AllConsumed" in res["out"] and "violated" in res["out"].lower() or res["distinct"] != len(lines) + 1:
+                if res["postcondition_failed"] or res["distinct"] != len(lines) + 1:
                     raise ToolingError("trace %s chunk %d not fully consumed (%d states for %d lines):\n%s" % (
                         label, ci, res["distinct"], len(lines), res["out"][-1500:]))
                 done_events = len(lines)
